@@ -472,7 +472,7 @@ func (c *Case) describe() string {
 
 // ---------- generation ----------
 
-var hostileNames = []string{"a.txt", "dir/sub/b.bin", `q"uote.txt`, `back\slash.txt`, "é.txt", "sp ace.html", "noext", `C:\x\y.png`}
+var hostileNames = []string{"a.txt", "dir/sub/b.bin", `q"uote.txt`, `back\slash.txt`, "é.txt", "sp ace.html", "noext", `C:\x\y.png`, `a\\b.txt`, `copy\(1).txt`, `trailing\`, `q"and\back.txt`, `\`}
 var fieldNames = []string{"file", "f2", `we"ird`, "a b"}
 var fileKinds = []string{"text", "html", "binary", "png", "json", "ws-then-html"}
 
